@@ -99,6 +99,48 @@ def events_in(an, blocks, body):
     return ev
 
 
+def build_runtime_check(ctx, r, rule):
+    """PoolBuilder::build() refuses any configured timeout when there is no runtime (C10; C18's last clause relies on it)"""
+    prog = ctx.prog
+    # ---- R10.5 build() ----------------------------------------------------------------------------------------------------
+    bd = prog.body('deadpool::managed::builder::PoolBuilder::build')
+    if bd is None:
+        ctx.undecide(rule, 'PoolBuilder::build not found')
+    else:
+        ctx.saw(bd)
+        ban = prog.an(bd)
+        tfields = [f['name'] for f in r.crate.adt(TIMEOUTS)['variants'][0]['fields']]
+        errs = [bb for bb, cls, det in ban.ret_assignments() if cls == 'err']
+        tested = {}
+        rt_test = None
+        for blk in bd.blocks:
+            t = blk.term
+            if t.kind == 'switch' and t.j.get('dty') == 'bool':
+                src = sources(ban, t.discr)
+                call = {s[1] for s in src if s[0] == 'call'}
+                flds = {s[1] for s in src if s[0] == 'field'}
+                # the predicate call is terminal for the origin analysis: look at what it was applied to
+                for s in list(src):
+                    if s[0] == 'call' and s[1] in ('std::option::Option::is_some', 'std::option::Option::is_none'):
+                        for s2 in sources(ban, bd.blocks[s[2]].term.args[0]):
+                            if s2[0] == 'field':
+                                flds.add(s2[1])
+                arms = dict(t.switch_arms())
+                for f in tfields:
+                    if '%s.%s' % (TIMEOUTS, f) in flds and 'std::option::Option::is_some' in call:
+                        tested[f] = any(e in ban.reach([arms['true']], ('normal',)) for e in errs)
+                if any(x.endswith('.runtime') for x in flds) and 'std::option::Option::is_none' in call:
+                    rt_test = any(e in ban.reach([arms['true']], ('normal',), avoid=[arms['false']]) for e in errs) and \
+                        not any(e in ban.reach([arms['false']], ('normal',), avoid=[arms['true']]) for e in errs)
+        for f in tfields:
+            ctx.ob(rule, 'build() rejects timeouts.%s without a runtime' % f, tested.get(f) is True, ctx.where(bd), 'field not part of the test' if f not in tested else '',
+                   construct='build:timeout-field:' + f)
+        ctx.ob(rule, 'the rejection is conditional on runtime.is_none()', rt_test is True, ctx.where(bd), '', construct='build:runtime-test')
+        made = [s.rv.j['variant'] for blk in bd.blocks for s in blk.stmts if s.kind == 'assign' and s.rv.kind == 'agg' and s.rv.j.get('adt', '').endswith('BuildError')]
+        ctx.ob(rule, 'the error is BuildError::NoRuntimeSpecified', made == ['NoRuntimeSpecified'], ctx.where(bd), str(made), construct='build:error')
+
+
+
 def run(ctx):
     r = roles(ctx)
     prog = ctx.prog
@@ -311,42 +353,7 @@ def run(ctx):
         ctx.ob('R10.9', 'the recycler returns no error except NoRuntimeSpecified (a recycle timeout rejects the object and get() moves on)', set(made) <= {'NoRuntimeSpecified'} and not resid,
                ctx.where(rec), 'recycler constructs %s, `?` propagations %d' % (made, len(resid)), construct='recycler-error-surface', sites=made)
 
-    # ---- R10.5 build() ----------------------------------------------------------------------------------------------------
-    bd = prog.body('deadpool::managed::builder::PoolBuilder::build')
-    if bd is None:
-        ctx.undecide('R10.5', 'PoolBuilder::build not found')
-    else:
-        ctx.saw(bd)
-        ban = prog.an(bd)
-        tfields = [f['name'] for f in r.crate.adt(TIMEOUTS)['variants'][0]['fields']]
-        errs = [bb for bb, cls, det in ban.ret_assignments() if cls == 'err']
-        tested = {}
-        rt_test = None
-        for blk in bd.blocks:
-            t = blk.term
-            if t.kind == 'switch' and t.j.get('dty') == 'bool':
-                src = sources(ban, t.discr)
-                call = {s[1] for s in src if s[0] == 'call'}
-                flds = {s[1] for s in src if s[0] == 'field'}
-                # the predicate call is terminal for the origin analysis: look at what it was applied to
-                for s in list(src):
-                    if s[0] == 'call' and s[1] in ('std::option::Option::is_some', 'std::option::Option::is_none'):
-                        for s2 in sources(ban, bd.blocks[s[2]].term.args[0]):
-                            if s2[0] == 'field':
-                                flds.add(s2[1])
-                arms = dict(t.switch_arms())
-                for f in tfields:
-                    if '%s.%s' % (TIMEOUTS, f) in flds and 'std::option::Option::is_some' in call:
-                        tested[f] = any(e in ban.reach([arms['true']], ('normal',)) for e in errs)
-                if any(x.endswith('.runtime') for x in flds) and 'std::option::Option::is_none' in call:
-                    rt_test = any(e in ban.reach([arms['true']], ('normal',), avoid=[arms['false']]) for e in errs) and \
-                        not any(e in ban.reach([arms['false']], ('normal',), avoid=[arms['true']]) for e in errs)
-        for f in tfields:
-            ctx.ob('R10.5', 'build() rejects timeouts.%s without a runtime' % f, tested.get(f) is True, ctx.where(bd), 'field not part of the test' if f not in tested else '',
-                   construct='build:timeout-field:' + f)
-        ctx.ob('R10.5', 'the rejection is conditional on runtime.is_none()', rt_test is True, ctx.where(bd), '', construct='build:runtime-test')
-        made = [s.rv.j['variant'] for blk in bd.blocks for s in blk.stmts if s.kind == 'assign' and s.rv.kind == 'agg' and s.rv.j.get('adt', '').endswith('BuildError')]
-        ctx.ob('R10.5', 'the error is BuildError::NoRuntimeSpecified', made == ['NoRuntimeSpecified'], ctx.where(bd), str(made), construct='build:error')
+    build_runtime_check(ctx, r, 'R10.5')
 
     # ---- R10.7 unmanaged timeout_get -----------------------------------------------------------------------------------------
     u = uroles(ctx)
